@@ -330,7 +330,9 @@ def validate_expr(e):
 # ---- generation ----------------------------------------------------------------------------------------
 GRID = [str(Fraction(k, 4)) for k in range(-32, 33)]
 FTERMS = [["f", "?x"], ["f", "?y"], ["g"], ["h", "?x", "?y"], ["h", "?y", "?x"]]
-CONSTS = ["0", "1", "2", "0.5", "-1", "3", "1.5", "0.25", "10", "-2.5", "0.125", "100", "0.3333", "2.71828"]
+CONSTS = ["0", "1", "2", "0.5", "-1", "3", "1.5", "0.25", "10", "-2.5", "0.125", "100", "0.3333", "2.71828",
+          # non-zero values inside the comparison tolerance: arithmetic is exact arithmetic, the tolerance belongs to comparisons only
+          "0.00005", "-0.00002", "0.005"]
 
 
 def gen_expr(ch, depth):
@@ -344,6 +346,8 @@ def gen_expr(ch, depth):
 
 def gen_vals(ch):
     def v():
+        if ch.flag(0.06):
+            return ch.choice(["0.00005", "-0.00003", "0.004", "0.0000001"])       # tiny but not zero
         fr = Fraction(ch.choice(GRID))
         return str(float(fr))
     return {"f a": v(), "f b": v(), "g": v(), "h a b": v(), "h b a": v()}
